@@ -27,6 +27,11 @@ def A_q(p, q):
     return ["q", int(p), int(q)]
 
 
+def A_mq(p, q):
+    """an mpmath rational (mpq) at the context level, a Fraction at the libmp level"""
+    return ["mq", int(p), int(q)]
+
+
 def A_l(xs):
     return ["l", list(xs)]
 
@@ -40,7 +45,7 @@ def py_raw(a):
         return a[1]
     if k == "d":
         return float.fromhex(a[1])
-    if k == "q":
+    if k in ("q", "mq"):
         return fractions.Fraction(a[1], a[2])
     if k == "l":
         return [py_raw(x) for x in a[1]]
@@ -54,6 +59,8 @@ def py_ctx(a, mp):
         return mp.make_mpf((a[1], a[2], a[3], a[4]))
     if k == "l":
         return [py_ctx(x, mp) for x in a[1]]
+    if k == "mq":
+        return mp.mpq(a[1], a[2])
     return py_raw(a)
 
 
@@ -65,7 +72,7 @@ def enc_arg(a):
         return enc.z(a[1])
     if k == "d":
         return enc.d(float.fromhex(a[1]))
-    if k == "q":
+    if k in ("q", "mq"):
         return enc.q(a[1], a[2])
     if k == "l":
         return enc.t([enc_arg(x) for x in a[1]])
